@@ -59,19 +59,24 @@ type scenario struct {
 	ID      int      `json:"id"`
 	Cfg     config   `json:"config"`
 	Layouts []string `json:"layouts"`
+	UTF8    bool     `json:"utf8"`              // charset=utf8: non-ASCII characters stay raw in the generated code
 	Special string   `json:"special,omitempty"` // replayed model counterexample
 	BannerX string   `json:"bannerText,omitempty"`
 }
 
 func (s scenario) name() string {
 	c := s.Cfg
-	return fmt.Sprintf("%s/%s/min-%s/b%v/r%v/c%v/%s/%s/x%v/%s%s", c.Mode, c.Format, c.Minify, c.Banner, c.Root, c.Content, c.Sm, c.Names, c.Compose, strings.Join(s.Layouts, "+"), s.Special)
+	u := ""
+	if s.UTF8 {
+		u = "/utf8"
+	}
+	return fmt.Sprintf("%s/%s/min-%s/b%v/r%v/c%v/%s/%s/x%v/%s%s%s", c.Mode, c.Format, c.Minify, c.Banner, c.Root, c.Content, c.Sm, c.Names, c.Compose, strings.Join(s.Layouts, "+"), u, s.Special)
 }
 
 func (s scenario) key(kind string) map[string]interface{} {
 	c := s.Cfg
 	k := map[string]interface{}{"kind": kind, "mode": c.Mode, "format": c.Format, "minify": c.Minify, "banner": c.Banner, "root": c.Root,
-		"content": c.Content, "sm": c.Sm, "names": c.Names, "compose": c.Compose, "layouts": strings.Join(s.Layouts, "+")}
+		"content": c.Content, "sm": c.Sm, "names": c.Names, "compose": c.Compose, "layouts": strings.Join(s.Layouts, "+"), "utf8": s.UTF8}
 	if s.Special != "" {
 		k["special"] = s.Special
 	}
@@ -286,6 +291,10 @@ func runScenario(r *core.Run, sc *scenario) *built {
 	}
 	res.replay = map[string]interface{}{"scenario": sc, "files": disk, "firstPass": firstPass}
 	minWS, minID, minSyn, banner, footer, sroot, scontent, smode := applyCommon(c, sc.BannerX)
+	charset := api.CharsetDefault
+	if sc.UTF8 {
+		charset = api.CharsetUTF8
+	}
 	expect := func() map[string]interface{} {
 		e := map[string]interface{}{"sourcesContent": c.Content, "everySourceMapped": true}
 		if c.Root {
@@ -326,7 +335,7 @@ func runScenario(r *core.Run, sc *scenario) *built {
 		mk := func(sm api.SourceMap) api.TransformResult {
 			res.nBuilds++
 			return api.Transform(input, api.TransformOptions{Sourcefile: f.spec.name, Sourcemap: sm, SourcesContent: scontent, SourceRoot: sroot,
-				MinifyWhitespace: minWS, MinifyIdentifiers: minID, MinifySyntax: minSyn, Banner: banner, Footer: footer, LogLevel: api.LogLevelSilent})
+				MinifyWhitespace: minWS, MinifyIdentifiers: minID, MinifySyntax: minSyn, Banner: banner, Footer: footer, Charset: charset, LogLevel: api.LogLevelSilent})
 		}
 		tr := mk(smode)
 		if len(tr.Errors) > 0 {
@@ -376,7 +385,7 @@ func runScenario(r *core.Run, sc *scenario) *built {
 	outdir := filepath.Join(root, "out")
 	base := api.BuildOptions{
 		AbsWorkingDir: root, Outdir: "out", Outbase: "src", Bundle: true, Write: false, LogLevel: api.LogLevelSilent,
-		SourcesContent: scontent, SourceRoot: sroot, MinifyWhitespace: minWS, MinifyIdentifiers: minID, MinifySyntax: minSyn,
+		SourcesContent: scontent, SourceRoot: sroot, MinifyWhitespace: minWS, MinifyIdentifiers: minID, MinifySyntax: minSyn, Charset: charset,
 	}
 	if banner != "" {
 		base.Banner = map[string]string{"js": banner}
@@ -583,8 +592,11 @@ func Run(r *core.Run) {
 	var wg sync.WaitGroup
 	designs := []string{"SourceMap.link.quick.cfg", "SourceMap.text.cfg", "SourceMap.shift.cfg"}
 	if r.Thorough() {
-		designs = []string{"SourceMap.link.c2m2.cfg", "SourceMap.link.c3m1.cfg", "SourceMap.link.c3m3l0.cfg", "SourceMap.link.c2m2l0.cfg", "SourceMap.link.c2m1.cfg",
-			"SourceMap.text.cfg", "SourceMap.shift.cfg", "SourceMap.shift.m3.cfg"}
+		designs = []string{"SourceMap.link.c2m2.cfg", "SourceMap.link.c3m1.cfg", "SourceMap.link.c3m3l0.cfg",
+			"SourceMap.text.cfg", "SourceMap.shift.m3.cfg"}
+	}
+	if r.Replay != "" {
+		designs = nil
 	}
 	wg.Add(1)
 	go func() {
@@ -600,7 +612,7 @@ func Run(r *core.Run) {
 	wg.Add(1)
 	go func() {
 		defer wg.Done()
-		crlf, cerr := tlcrun.Run(r, tlcrun.Options{Module: "SourceMap", Config: "SourceMap.textcrlf.cfg", Workers: 1, TimeoutSec: 600})
+		crlf, cerr := tlcrun.Run(r, tlcrun.Options{Module: "SourceMap", Config: "SourceMap.textcrlf.cfg", Workers: 1, TimeoutSec: 1200})
 		if cerr != nil {
 			r.Infra("textcrlf config: %v", cerr)
 		} else if crlf.Violated == "PiecewiseAlways" {
@@ -614,7 +626,7 @@ func Run(r *core.Run) {
 	// ---- scenarios -------------------------------------------------------------
 	var configs []config
 	var layouts [][]string
-	gres := tlcrun.MustHold(r, tlcrun.Options{Module: "SourceMapGen", Config: "SourceMapGen.cfg", Workers: 1, TimeoutSec: 300, OnCase: func(raw []byte) {
+	gres := tlcrun.MustHold(r, tlcrun.Options{Module: "SourceMapGen", Config: "SourceMapGen.cfg", Workers: 1, TimeoutSec: 1200, OnCase: func(raw []byte) {
 		var probe struct {
 			Kind string `json:"kind"`
 		}
@@ -654,17 +666,26 @@ func Run(r *core.Run) {
 	id := 0
 	addScen := func(c config, l []string) {
 		id++
-		scens = append(scens, &scenario{ID: id, Cfg: c, Layouts: l})
+		sc := &scenario{ID: id, Cfg: c, Layouts: l}
+		for _, x := range l {
+			if (x == "astral" || x == "ls") && id%2 == 0 {
+				sc.UTF8 = true
+			}
+		}
+		scens = append(scens, sc)
 	}
 	if r.Thorough() {
+		// every configuration: transform x 4 single-file layouts, bundle/split x 2
+		// multi-file tuples + 1 single-file tuple, drawn by the seed
 		for _, c := range configs {
 			if c.Mode == "transform" {
-				for _, l := range single {
-					addScen(c, l)
+				p := r.Rand.Perm(len(single))
+				for k := 0; k < 4; k++ {
+					addScen(c, single[p[k]])
 				}
 				continue
 			}
-			for k := 0; k < 6; k++ {
+			for k := 0; k < 2; k++ {
 				addScen(c, multi[r.Rand.Intn(len(multi))])
 			}
 			addScen(c, single[r.Rand.Intn(len(single))])
@@ -687,6 +708,15 @@ func Run(r *core.Run) {
 		id++
 		scens = append(scens, &scenario{ID: id, Special: "crlf-split-banner", BannerX: "/*c*/\r", Layouts: []string{"plain"},
 			Cfg: config{Mode: "bundle", Format: "esm", Minify: "none", Sm: "external", Names: "short", Content: true}})
+	}
+	if r.Replay != "" {
+		sc := loadReplay(r.Replay)
+		if sc == nil {
+			r.Infra("cannot read a scenario from %s", r.Replay)
+			wg.Wait()
+			return
+		}
+		scens = []*scenario{sc}
 	}
 	r.Set("scenarios", len(scens))
 	r.Logf("%d configurations x %d layout tuples enumerated; %d scenarios to build", len(configs), len(layouts), len(scens))
@@ -746,6 +776,7 @@ func Run(r *core.Run) {
 	perScenErrs := map[int]int{}
 	sampled := 0
 	rebaseCompared, rebaseSkipped, rebaseJobs := int64(0), 0, 0
+	skipReasons := map[string]int{}
 	for _, rs := range outs {
 		for _, jr := range rs {
 			j := byID[jr.ID]
@@ -777,6 +808,11 @@ func Run(r *core.Run) {
 				rebaseJobs++
 				rebaseCompared += jr.Compared
 				rebaseSkipped += len(jr.Skipped)
+				for _, sk := range jr.Skipped {
+					if k := strings.Index(sk, ": "); k >= 0 {
+						skipReasons[sk[k+2:]+" ["+sc.Cfg.Minify+"/"+sc.Cfg.Format+"]"]++
+					}
+				}
 				if len(jr.Record) > 0 && string(jr.Record) != "null" {
 					records = append(records, jr.Record)
 					recScens = append(recScens, sc)
@@ -805,6 +841,7 @@ func Run(r *core.Run) {
 	r.Set("rebase_jobs", rebaseJobs)
 	r.Set("rebase_mappings_compared", rebaseCompared)
 	r.Set("rebase_files_skipped", rebaseSkipped)
+	r.Set("rebase_skip_reasons", skipReasons)
 	r.Logf("maps: %d mappings decoded, %d marker-true, %d names true, %d cover; rebase: %d jobs, %d mappings compared, %d files skipped",
 		totals["mappings"], totals["marker_true"], totals["name_true"], totals["cover"], rebaseJobs, rebaseCompared, rebaseSkipped)
 	if totals["marker_true"] == 0 {
@@ -827,6 +864,46 @@ func Run(r *core.Run) {
 	wg.Wait()
 	r.Set("model_counterexample_crlf_split_found", replayCRLF)
 	r.Set("rule", "case = one (configuration, layout tuple) pair of SourceMapGen.tla materialised as marker files and built with the real api.Build/Transform; every emitted map is decoded and every mapping checked against the marker tokens; non-trivial = at least 2 source files, or code splitting (final-path shifts), or a CRLF / U+2028 / astral layout; distinct by the full scenario name")
+}
+
+// loadReplay finds the scenario record inside a replay file written by r.Violation
+func loadReplay(path string) *scenario {
+	b, err := os.ReadFile(path)
+	if err != nil {
+		return nil
+	}
+	var v interface{}
+	if json.Unmarshal(b, &v) != nil {
+		return nil
+	}
+	var find func(x interface{}) *scenario
+	find = func(x interface{}) *scenario {
+		switch t := x.(type) {
+		case map[string]interface{}:
+			if sc, ok := t["scenario"].(map[string]interface{}); ok {
+				if _, has := sc["config"]; has {
+					raw, _ := json.Marshal(sc)
+					var out scenario
+					if json.Unmarshal(raw, &out) == nil {
+						return &out
+					}
+				}
+			}
+			for _, c := range t {
+				if r := find(c); r != nil {
+					return r
+				}
+			}
+		case []interface{}:
+			for _, c := range t {
+				if r := find(c); r != nil {
+					return r
+				}
+			}
+		}
+		return nil
+	}
+	return find(v)
 }
 
 func outputClass(out string) string {
